@@ -5,6 +5,13 @@ specification (Spec/Std.lean).  First lines configure, then one operation per li
   cfg <arc|rc|unique> <debug|release> <ceil> <icap> <slots>
   src <hex>                       (adds caller-owned memory; any time)
   <op …>                          (see `parseOp`)
+  s_push_str h <hex> | s_push_char h <scalar> | s_pop h | s_truncate h n |
+  s_try_slice h d SB EB | s_slice h d SB EB | s_from_utf8 d <hex>
+                                  (the `HipStr` API proper: `HipVerif.Str.strStep`; `M ret=` is
+                                  `char:<hex>`/`nochar`, `err:a:b:<kind>`, `utf8err:<valid_up_to>`,
+                                  `panic` or the byte-level result; the spec pool follows the
+                                  model's outcome: accepted = the byte-level op, rejected = unchanged
+                                  and `S ret=rejected`)
 
 For every line one output line:
   M ret=<ret> ev=<ai>,<fi>,<ab>,<fb>,<gb> | h<i>=<I|B|H>,<len>,<cap>,<uniq>,<cnt>,<vlen>,<blk>,<off>,<hex>,<taint> … || S ret=<ret> | p<i>=<hex> …
@@ -14,6 +21,7 @@ renumbers both sides by first appearance).
 -/
 import HipVerif.Model.Core
 import HipVerif.Spec.Std
+import HipVerif.Model.CoreStr
 
 open HipVerif.Core HipVerif.RangeTy
 
@@ -158,6 +166,43 @@ def showSpecPool (p : HipVerif.Spec.Std.SPool) : String :=
     | some v :: rest => s!"p{i}={hexOf v}" :: go (i + 1) rest
   " ".intercalate (go 0 p)
 
+/-! ## the `HipStr`-level operations (`Model/CoreStr.lean`) -/
+
+open HipVerif.Str in
+def parseStrOp (toks : List String) : Option StrOp :=
+  match toks with
+  | ["s_push_str", h, x] => do pure (.pushStr (← h.toNat?) (← parseHex x))
+  | ["s_push_char", h, c] => do pure (.pushChar (← h.toNat?) (← c.toNat?))
+  | ["s_pop", h] => do pure (.popChar (← h.toNat?))
+  | ["s_truncate", h, n] => do pure (.truncate (← h.toNat?) (← n.toNat?))
+  | ["s_try_slice", h, d, a, b] => do pure (.trySlice (← h.toNat?) (← d.toNat?) (← parseBound a) (← parseBound b))
+  | ["s_slice", h, d, a, b] => do pure (.slice (← h.toNat?) (← d.toNat?) (← parseBound a) (← parseBound b))
+  | ["s_from_utf8", d, x] => do pure (.fromUtf8 (← d.toNat?) (← parseHex x))
+  | _ => none
+
+open HipVerif.Str in
+def showStrRet : StrRet → String
+  | .byte r => showRet r
+  | .char none => "nochar"
+  | .char (some bs) => s!"char:{hexOf bs}"
+  | .sliceErr (.range a b k) => s!"err:{a}:{b}:{showKind k}"
+  | .sliceErr (.startNotBoundary a b) => s!"err:{a}:{b}:StartNotACharBoundary"
+  | .sliceErr (.endNotBoundary a b) => s!"err:{a}:{b}:EndNotACharBoundary"
+  | .utf8Err n => s!"utf8err:{n}"
+  | .panic => "panic"
+
+open HipVerif.Str in
+/-- the byte-level operation an ACCEPTED `HipStr` call performs -/
+def strByteOp (s : State) : StrOp → Option Op
+  | .byte op => some op
+  | .pushStr h bs => some (.pushSlice h bs)
+  | .pushChar h c => some (.pushSlice h (HipVerif.Utf8.encode c))
+  | .popChar h => (getH s h).map fun hd => .truncate h (HipVerif.Utf8.lastCharStart (view s hd))
+  | .truncate h n => some (.truncate h n)
+  | .trySlice h d sb eb => some (.trySlice h d sb eb)
+  | .slice h d sb eb => some (.slice h d sb eb)
+  | .fromUtf8 d bs => some (.fromSlice d bs)
+
 structure DState where
   cfg : Cfg
   s : State
@@ -192,7 +237,41 @@ def stepLine (ds : DState) (line : String) : DState × String :=
       let (sp', r) := HipVerif.Spec.Std.step ds.cfg.icap ds.s.srcs ds.sp op (HipVerif.Spec.Std.retFlag o.ret)
       ({ ds with s := s', sp := sp' },
         s!"M ret={showRet o.ret} ev={showEvents o.events} | {showPool ds.cfg s'} || S ret={showRet r} | {showSpecPool sp'}")
-    | none => (ds, "bad-op")
+    | none =>
+      match parseStrOp toks with
+      | some sop =>
+        let (s', r) := HipVerif.Str.strStep ds.cfg ds.s sop
+        let bop := strByteOp ds.s sop
+        let accepted : Bool :=
+          match r with
+          | .byte .badOp => false
+          | .byte _ => true
+          | .char (some _) => true
+          | _ => false
+        -- `strStep` keeps the result only: the events are those of the byte-level op it ran
+        let evs : List Event :=
+          match accepted, bop with
+          | true, some op => (step ds.cfg ds.s op).2.events
+          | _, _ => []
+        let (sp', sret) : HipVerif.Spec.Std.SPool × String :=
+          match r, bop with
+          | .byte .badOp, _ => (ds.sp, "bad-op")
+          | .byte br, some op =>
+            let (sp1, sr) := HipVerif.Spec.Std.step ds.cfg.icap ds.s.srcs ds.sp op (HipVerif.Spec.Std.retFlag br)
+            (sp1, showRet sr)
+          | .char (some _), some (.truncate h _) =>
+            -- spec side of `pop`: cut the last scalar of the SPEC's value
+            match HipVerif.Spec.Std.sget ds.sp h with
+            | some v =>
+              let i := HipVerif.Utf8.lastCharStart v
+              let (sp1, _) := HipVerif.Spec.Std.step ds.cfg.icap ds.s.srcs ds.sp (.truncate h i) true
+              (sp1, s!"char:{hexOf (v.drop i)}")
+            | none => (ds.sp, "bad-op")
+          | .char none, _ => (ds.sp, "nochar")
+          | _, _ => (ds.sp, "rejected")
+        ({ ds with s := s', sp := sp' },
+          s!"M ret={showStrRet r} ev={showEvents evs} | {showPool ds.cfg s'} || S ret={sret} | {showSpecPool sp'}")
+      | none => (ds, "bad-op")
 
 partial def loop (h out : IO.FS.Stream) (ds : DState) : IO Unit := do
   let line ← h.getLine
